@@ -246,6 +246,23 @@ def scalar_verdicts(ctx, db, aff, cfg, u, x):
                 f2 = FractionScalar(c, FractionValue(x - 1.0, (2, 2)), u)
                 if f2.IsValid() != got:
                     ctx.violation("FractionScalar-split-verdict-differs", dict(case, scalar=got, fraction=f2.IsValid()), replay=case)
+            # the FractionValue a FractionScalar was given stays the caller's (GetValue() hands out that very object) and can be
+            # edited: the verdict is about the amount the object holds when it is asked - first another amount, then this one
+            if abs(x) < 1e6:
+                fv = FractionValue(x + 1000.0, (1, 2))
+                f3 = FractionScalar(c, fv, u)
+                fv.number = x
+                fv.fraction = FractionValue(0.0).fraction.__class__(0, 1)
+                ctx.ev()
+                if float(f3.GetValue()) == x:
+                    ctx.count("FractionScalars asked after the caller edited the value they hold")
+                    fe3 = None
+                    try:
+                        f3.CheckValidity()
+                    except Exception as e:
+                        fe3 = e
+                    if f3.IsValid() != got or (fe3 is None) != got:
+                        ctx.violation("FractionScalar-verdict-is-about-an-amount-it-no-longer-holds", dict(case, scalar=got, fraction=f3.IsValid(), held_at_construction=x + 1000.5), replay=case)
         except Exception as e:
             ctx.violation("FractionScalar-raised:%s" % type(e).__name__, dict(case, error=str(e)[:200]), replay=case)
     return got
@@ -640,6 +657,23 @@ def add_category_tuples(ctx, db, aff, r, n):
         ctx.nt(("AddCategory", tuple(sorted(kw)), kw.get("is_min_exclusive"), kw.get("is_max_exclusive"), kw.get("min_value") is None, kw.get("max_value") is None))
         info = db.GetCategoryInfo(name)
         du, dv = db.GetDefaultUnit(name), db.GetDefaultValue(name)
+        # what the registration said is what the category reports: a limit, default value or default unit given explicitly
+        # (zero is a limit like any other), else - for a copy - what the copied category has
+        src = db.GetCategoryInfo(kw["from_category"]) if "from_category" in kw else None
+        for field, got in (("min_value", info.min_value), ("max_value", info.max_value), ("default_value", dv), ("default_unit", du)):
+            given = kw.get(field)
+            if field == "default_unit" and given is not None:
+                from barril.units.unit_database import FixUnitIfIsLegacy
+
+                given = FixUnitIfIsLegacy(given)[1] if given not in db.unit_to_unit_info else given
+            want = given if given is not None else (getattr(src, field) if src is not None else None)
+            ctx.ev()
+            if (given is not None or src is not None) and field != "default_value" and want is not None and got != want:
+                ctx.violation("AddCategory:reports-another-%s-than-it-was-registered-with" % field, dict(case, registered=want, reports=got, copied_from=kw.get("from_category")), replay=case)
+            if field == "default_value" and given is not None and got != given:
+                ctx.violation("AddCategory:reports-another-default_value-than-it-was-registered-with", dict(case, registered=given, reports=got), replay=case)
+            if field in ("min_value", "max_value") and given is None and src is None and got is not None:
+                ctx.violation("AddCategory:reports-a-%s-nobody-registered" % field, dict(case, reports=got), replay=case)
         tq = db.GetCategoryQuantityType(name)
         type_units = db.GetUnits(tq)
         vu = db.GetValidUnits(name)
@@ -687,6 +721,49 @@ def add_category_tuples(ctx, db, aff, r, n):
                 ctx.violation("AddCategory:Scalar(category,unit=)-raised:%s" % type(e).__name__, dict(case, unit=v, error=str(e)[:200]), replay=case)
 
 
+def clones_with_zero_limits(ctx, db):
+    """A copy of a limited category (from_category) registered with limits / a default of its own that are exactly zero:
+    zero is a limit like any other - the copy validates amounts against zero on that side, not against the source's."""
+    from barril.units import Array, Scalar
+
+    db.AddCategory("c12 source", "length", default_unit="m", min_value=5.0, max_value=50.0, default_value=7.0)
+    db.AddCategory("c12 source below zero", "temperature", default_unit="degC", min_value=-50.0, max_value=-5.0, default_value=-7.0)
+    k = 0
+    for src, kws in (
+        ("c12 source", [{"min_value": 0.0}, {"min_value": 0.0, "default_value": 0.0}, {"min_value": 0, "is_min_exclusive": True}, {"min_value": -0.0, "max_value": 8.0}, {"min_value": 0.0, "default_value": 0.5, "default_unit": "cm"}]),
+        ("c12 source below zero", [{"max_value": 0.0}, {"max_value": 0.0, "default_value": 0.0}, {"max_value": 0, "is_max_exclusive": True}, {"max_value": 0.0, "min_value": -100.0}]),
+    ):  # fmt: skip
+        sinfo = db.GetCategoryInfo(src)
+        for kw in kws:
+            k += 1
+            name = "c12 clone %d" % k
+            case = {"category": name, "from_category": src, "kwargs": kw}
+            ctx.ev()
+            try:
+                db.AddCategory(name, from_category=src, **kw)
+            except Exception as e:
+                ctx.violation("clone-with-a-zero-limit-refused:%s" % type(e).__name__, dict(case, error=str(e)[:160]))
+                continue
+            info = db.GetCategoryInfo(name)
+            want_min = kw.get("min_value", sinfo.min_value)
+            want_max = kw.get("max_value", sinfo.max_value)
+            if info.min_value != want_min or info.max_value != want_max:
+                ctx.violation("clone-reports-other-limits-than-it-was-registered-with", dict(case, registered=[want_min, want_max], reports=[info.min_value, info.max_value]))
+            du = info.default_unit
+            mn_ex, mx_ex = bool(info.is_min_exclusive), bool(info.is_max_exclusive)
+            for x in (-60.0, -7.0, -1.0, -0.0, 0.0, 0.5, 1.0, 6.0, 7.0, 9.0, 60.0):
+                ok = (x > want_min if mn_ex else x >= want_min) and (x < want_max if mx_ex else x <= want_max)
+                ctx.ev()
+                ctx.nt(("clone", name, x))
+                try:
+                    got = [Scalar(name, x, du).IsValid(), Array(name, [x, x], du).IsValid()]
+                except Exception as e:
+                    got = repr(e)[:120]
+                if got != [ok, ok]:
+                    ctx.violation("clone-validates-against-other-limits-than-its-own", dict(case, amount=x, unit=du, limits=[want_min, want_max], exclusive=[mn_ex, mx_ex], verdicts=got, expected=ok))
+    ctx.count("clones registered with a zero limit of their own", k)
+
+
 def run(ctx):
     from barril.units import Array, Quantity, Scalar, UnitDatabase
 
@@ -715,6 +792,7 @@ def run(ctx):
         derived_objects(ctx, db, aff, cfgs, ctx.rng("derived"), 6000 if ctx.tier == "quick" else 60000)
         add_category_tuples(ctx, db, aff, ctx.rng("addcat"), 1500 if ctx.tier == "quick" else 12000)
         if ctx.shard == 0:
+            clones_with_zero_limits(ctx, db)
             ctx.sample({"config": cfgs[9], "unit": "cm", "amounts": ["Convert(m->cm, 1.0)", "+1 ulp", "-1 ulp", "nan", "inf"], "array": "every permutation x list/tuple/ndarray/FixedArray"})
             ctx.sample({"AddCategory": {"quantity_type": "length", "valid_units": ["cm", "km"], "default_unit": "m"}, "expected": "refused, or a default unit among the valid units"})
     override_histories(ctx, ctx.rng("override"), 6 if ctx.tier == "quick" else 60)
